@@ -9,7 +9,7 @@ ALL = ['C%02d' % i for i in range(1, 21)]
 
 CLAIMS = {
     'C01': {
-        'text': "Lean theorems C01.canon_reads_back (the canonical tokens of every value of the built-in literal types read back, by the reader of Spec/Reader.lean, to exactly that value: container types, element order, insertion order of dicts, string contents, literal texts) and C01.output_reads_back (chained with C03.output_tokens: what pformat prints has, up to literal splitting, such a token sequence); the reader and the token spec are tied to CPython eval / tokenize on every run. Engine soundness (C04.sound) and splitter theorems (C02) apply to pformatM = render . layout . toDoc; C01.output_reads_back_sorted (with sort_dict_keys on, the tokens read back to the value with every dict's entries in sorted order; Tok.inC01_shown), C01.sorted_perm (key sorting only permutes entries), insertion_order. The hand-written model of every built-in printer (PP/Model/Values.lean) is tied to /repo by exact comparison of the annotated SDoc stream and text of python_to_sdocs on all small value trees over an adversarial leaf alphabet at width=ribbon=1..12 and on seeded random trees x 10-18 widths x ribbons x indents x sort flags; the oracle eval('(' + text + ')') with exact type / NaN / signed-zero / order comparison runs on every implementation output.",
+        'text': "Lean theorems C01.canon_reads_back (the canonical tokens of every value of the built-in literal types read back, by the reader of Spec/Reader.lean, to exactly that value: container types, element order, insertion order of dicts, string contents, literal texts) and C01.output_reads_back (chained with C03.output_tokens: what pformat prints has, up to literal splitting, such a token sequence); the reader and the token spec are tied to CPython eval / tokenize on every run. Engine soundness (C04.sound) and splitter theorems (C02) apply to pformatM = render . layout . toDoc; C01.canon_reads_back' / output_reads_back' extend both to the whole readable fragment inRd (subclass instances and call-style objects nested anywhere; Tok.inC01_inRd); C01.output_reads_back_sorted (with sort_dict_keys on, the tokens read back to the value with every dict's entries in sorted order; Tok.inC01_shown), C01.sorted_perm (key sorting only permutes entries), insertion_order. The hand-written model of every built-in printer (PP/Model/Values.lean) is tied to /repo by exact comparison of the annotated SDoc stream and text of python_to_sdocs on all small value trees over an adversarial leaf alphabet at width=ribbon=1..12 and on seeded random trees x 10-18 widths x ribbons x indents x sort flags; the oracle eval('(' + text + ')') with exact type / NaN / signed-zero / order comparison runs on every implementation output.",
         'note': 'value-level end-to-end theorem (reader . pformatM = id / token invariance) is not proved yet: the claim rests on C04.sound_pformat (unconditional) for the engine, C02 for the splitter, the listed syntactic lemmas about the printer model, the model=code correspondence on SDoc streams, and the CPython oracle run on every implementation output',
         'technique': 'Lean 4 proof (engine + splitter) + differential correspondence of the printer model + eval oracle',
         'design_ref': 'DESIGN.md section 5, C01',
@@ -21,7 +21,7 @@ CLAIMS = {
         'design_ref': 'DESIGN.md section 5, value level / token invariance',
     },
     'C08': {
-        'text': 'C08.wrapper_seq / wrapper_int / wrapper_shape: in the model a subclass instance prints as a call of the class around exactly the document of the underlying built-in value; the model has no input for __repr__/__str__ overrides. On tokens (via C03.output_tokens, so for every layout): C08.seq_wrapper_tokens / dict_wrapper_tokens / int_wrapper_tokens / str_wrapper_tokens — the code tokens of the output are the class name, an opening parenthesis, exactly the tokens of the underlying built-in value, a closing parenthesis. Correspondence on instances of 36 generated subclasses (9 bases x plain / __repr__ / __str__ / both) + IntEnum in 6 nesting contexts x layouts; oracle: eval reconstructs class and value. F6, F7, F17 repaired.',
+        'text': 'C08.wrapper_seq / wrapper_int / wrapper_shape: in the model a subclass instance prints as a call of the class around exactly the document of the underlying built-in value; the model has no input for __repr__/__str__ overrides. On tokens (via C03.output_tokens, so for every layout): C08.seq_wrapper_tokens / dict_wrapper_tokens / int_wrapper_tokens / str_wrapper_tokens — the code tokens of the output are the class name, an opening parenthesis, exactly the tokens of the underlying built-in value, a closing parenthesis. Correspondence on instances of 36 generated subclasses (9 bases x plain / __repr__ / __str__ / both) + IntEnum in 6 nesting contexts x layouts; oracle: eval reconstructs class and value. Evaluation clause on tokens: the reader of Spec/Reader.lean (now with calls) reads the canonical tokens of every subclass instance as the call of the class name on the reading of the underlying value (Tok.canon_reads over the fragment inRd; C08.seq_denotes / seq_empty_denotes / dict_denotes / frozenset_denotes / int_denotes / str_denotes / float_denotes / float_special_denotes say what that is; C08.output_reads_back chains it with C03.output_tokens for every layout); the reader is tied to CPython by comparing its reading with ast.parse of the implementation text (section reader). F6, F7, F17 repaired.',
         'note': 'value-level end-to-end theorem (reader . pformatM = id / token invariance) is not proved yet: the claim rests on C04.sound_pformat (unconditional) for the engine, C02 for the splitter, the listed syntactic lemmas about the printer model, the model=code correspondence on SDoc streams, and the CPython oracle run on every implementation output',
         'technique': 'Lean 4 proof (wrapper lemmas) + differential correspondence + eval oracle',
         'design_ref': 'DESIGN.md section 5, C08',
@@ -45,7 +45,7 @@ CLAIMS = {
         'design_ref': 'DESIGN.md section 5, C11',
     },
     'C17': {
-        'text': 'C17.empty_call, hug_only_exact; on tokens (via C03.output_tokens, for every layout): C17.call_tokens / kw_tokens — the name, the positional arguments in order, then name = value for the keyword arguments in the order given, each argument with exactly the tokens it has when printed alone, between one pair of parentheses. Correspondence on objects printed through pretty_call_alt (0-3 positional, 0-2 keyword arguments, nested calls, commented arguments) alone and nested; oracle: eval rebuilds the same callable with arguments in order. Dataclasses / attrs extras: the field selection is modelled (PP/Model/Fields.lean, parametric in the != of the user) and proved: C17.fields_shown_iff (a keyword argument is printed exactly for the fields with repr enabled that have no default or whose default != the value), fields_in_declaration_order, fields_rebuild (calling the class with the printed arguments stores in every repr field the same value or a default that != does not tell apart), hidden_field_rebuilt_from_default, instance_tokens; tied to /repo by sending generated class definitions with current values to the model, which selects the fields itself (cross-checked with the prescription computed from the class description).',
+        'text': 'C17.empty_call, hug_only_exact; on tokens (via C03.output_tokens, for every layout): C17.call_tokens / kw_tokens — the name, the positional arguments in order, then name = value for the keyword arguments in the order given, each argument with exactly the tokens it has when printed alone, between one pair of parentheses. Correspondence on objects printed through pretty_call_alt (0-3 positional, 0-2 keyword arguments, nested calls, commented arguments) alone and nested; oracle: eval rebuilds the same callable with arguments in order. Evaluation clause on tokens: C17.output_reads_back / call_denotes / kwargs_denote — the output of every layout reads back (reader of Spec/Reader.lean, tied to CPython's ast on every run) as the call of the name on the positional arguments in order followed by the keyword items in the order given. Dataclasses / attrs extras: the field selection is modelled (PP/Model/Fields.lean, parametric in the != of the user) and proved: C17.fields_shown_iff (a keyword argument is printed exactly for the fields with repr enabled that have no default or whose default != the value), fields_in_declaration_order, fields_rebuild (calling the class with the printed arguments stores in every repr field the same value or a default that != does not tell apart), hidden_field_rebuilt_from_default, instance_tokens; tied to /repo by sending generated class definitions with current values to the model, which selects the fields itself (cross-checked with the prescription computed from the class description).',
         'note': 'value-level end-to-end theorem (reader . pformatM = id / token invariance) is not proved yet: the claim rests on C04.sound_pformat (unconditional) for the engine, C02 for the splitter, the listed syntactic lemmas about the printer model, the model=code correspondence on SDoc streams, and the CPython oracle run on every implementation output',
         'technique': 'Lean 4 lemmas + differential correspondence + eval oracle',
         'design_ref': 'DESIGN.md section 5, C17',
